@@ -423,6 +423,7 @@ func (g *cg) args(d int) []Node {
 func (g *cg) literalObj(d int) Node {
 	n := g.r.Range(0, 3)
 	var ps []Prop
+	// ES5 11.1.5 early errors: no data/accessor clash, no duplicate getter or setter
 	for i := 0; i < n; i++ {
 		switch g.r.Intn(7) {
 		case 0:
@@ -445,8 +446,19 @@ func (g *cg) literalObj(d int) Node {
 			ps = append(ps, Prop{Kind: "init", Key: []string{"get", "set"}[g.r.Intn(2)], KeyAs: "ident", Value: g.assignExpr(d + 1)})
 		}
 	}
+	// ES5 11.1.5 early errors: no data/accessor clash, no duplicate getter or setter
+	kinds := map[string]string{}
+	var out []Prop
+	for _, p := range ps {
+		prev, seen := kinds[p.Key]
+		if seen && (p.Kind == "init" || prev == "init" || strings.Contains(prev, p.Kind)) {
+			continue
+		}
+		kinds[p.Key] = prev + p.Kind
+		out = append(out, p)
+	}
 	g.f("object-literal")
-	return ObjL(ps...)
+	return ObjL(out...)
 }
 
 func (g *cg) fnBody(d int) []Node {
